@@ -165,7 +165,7 @@ def non_jsonb_stream(ctx):
         ctx.count('non_jsonb_inputs', 'well-formed UTF-8' if wf else 'ill-formed UTF-8')
 
 
-ILL_FORMED_DIFF = False      # TODO(lead): True once the model's text branch applies `lossy` (second review, M2)
+ILL_FORMED_DIFF = True      # the model's text branch applies `lossy` (second review, M2): ill-formed inputs are diffed too
 
 
 def judge(ctx):
